@@ -514,6 +514,61 @@ def report(ctx, np, HLL, p, seed, hA, hB, res):
 
 
 # ----------------------------------------------------------------- run
+def slot_suite(ctx, np, HLL, n_cases):
+    """Persistent sketches (a DAG of operations, not a tree): after every operation EVERY live sketch must
+    still equal a fresh sketch fed its own distinct keys - in particular the merged-in operand and sketches
+    that were merged earlier must not change when another sketch is modified later (no shared state)."""
+    rng = ctx.rng
+    nviol = 0
+    for it in range(n_cases):
+        p = rng.choice([7, 7, 8, 10, 12])
+        seed = rng.choice(SEEDS) if rng.random() < 0.5 else rng.getrandbits(64)
+        ns = rng.choice([2, 2, 3, 4])
+        sk = [HLL(p, seed) for _ in range(ns)]
+        keys = [set() for _ in range(ns)]
+        trace = []
+        # some sketches start empty on purpose (a merge into an empty sketch is a special path)
+        for i in range(ns):
+            if rng.random() < 0.5:
+                for _ in range(rng.randint(1, 4)):
+                    k = bytes(rng.getrandbits(8) for _ in range(rng.randint(0, 9)))
+                    sk[i].add(k)
+                    keys[i].add(k)
+                    trace.append(["add", i, list(k)])
+        bad = None
+        for step in range(rng.randint(2, 8)):
+            if rng.random() < 0.5:
+                i, j = rng.sample(range(ns), 2)
+                sk[i].merge(sk[j])
+                keys[i] |= keys[j]
+                trace.append(["merge", i, j])
+            else:
+                i = rng.randrange(ns)
+                ks = [bytes(rng.getrandbits(8) for _ in range(rng.randint(0, 9))) for _ in range(rng.randint(1, 3))]
+                if rng.random() < 0.5:
+                    sk[i].update(ks)
+                else:
+                    for k in ks:
+                        sk[i].add(k, rng.choice([1, 3]))
+                keys[i] |= set(ks)
+                trace.append(["add", i, [list(k) for k in ks]])
+            for q in range(ns):
+                got = dict(nonzero_pairs(np, sk[q].registers))
+                want = spec_regs(p, seed, keys[q])
+                if got != want:
+                    bad = {"sketch": q, "after_step": trace[-1], "registers": sorted(got.items())[:20],
+                           "fresh_sketch_of_its_own_keys": sorted(want.items())[:20]}
+                    break
+            if bad:
+                break
+        ctx.case_seen(("slots", p, seed, repr(trace)), True)
+        ctx.count("slot_suite")
+        if bad and nviol < 2:
+            bad.update({"p": p, "seed": seed, "trace": trace})
+            ctx.violation(bad, "a sketch changed although none of its own keys changed (state shared between sketches after merge)")
+            nviol += 1
+
+
 def run(ctx):
     quick = ctx.tier == "quick"
     n_cases = 600 if quick else 6000          # pair cases that also go through the model
@@ -600,7 +655,8 @@ def run(ctx):
         if ci < 3:
             ctx.sample({"p": p, "seed": seed, "history_A": hist_json(hA), "history_B": hist_json(hB),
                         "nonzero_registers": nonzero_pairs(np, a.registers), "query": a.query()})
-    ctx.tick("pair cases run on the implementation")
+    slot_suite(ctx, np, HLL, 300 if ctx.tier == "quick" else 3000)
+    ctx.tick("pair cases + persistent-slot cases run on the implementation")
 
     # ---- per-operation suite: one sketch, registers recorded after every operation
     n_prefix = 0
